@@ -4,15 +4,10 @@ namespace Flow
 
 /-! ### invariants -/
 
-def NoUnkRes (r : Res) : Prop := Atom.unknown ∉ r.intoType
-
 /-- every query at a node is sound for the current environment (all three modes), for every variable outside
 the excluded set `W` -/
 def SoundSt (W : Nat → Bool) (ρ : Env) (s : St) : Prop :=
   ∀ x, W x = false → ∀ m, (s.get x m).has (ρ.get x) = true
-
-/-- `IgnoreConditions` results never contain `unknown` (static) -/
-def WfSt (s : St) : Prop := ∀ x, NoUnkRes (s.get x .ignore)
 
 def SoundPt (W : Nat → Bool) (ρ : Env) : Pt → Prop
   | .node s => SoundSt W ρ s
@@ -33,10 +28,6 @@ def Cond.storedIn (S : List (Nat × TName)) : Cond → Bool
 
 variable {W : Nat → Bool} {S : List (Nat × TName)}
 
-def WfPt : Pt → Prop
-  | .node s => WfSt s
-  | .label ins => ∀ s ∈ ins, WfSt s
-
 theorem Res.has_intoType {r : Res} {v : Val} (h : r.has v = true) : r.intoType.has v = true := by
   cases r <;> simp_all [Res.has, Res.intoType]
 
@@ -56,18 +47,6 @@ theorem foldl_union_has {ins : List St} {x : Nat} {m : Mode} {v : Val} :
       · exact .inl (unionTy_has (.inr (Res.has_intoType hv)))
       · exact .inr ⟨s', hs', hv⟩
 
-theorem foldl_union_noUnk {ins : List St} {x : Nat} {m : Mode} :
-    ∀ {acc : Ty}, Atom.unknown ∉ acc → (∀ s ∈ ins, NoUnkRes (s.get x m)) →
-      Atom.unknown ∉ ins.foldl (fun acc s => unionTy acc (s.get x m).intoType) acc := by
-  induction ins with
-  | nil => intro acc h _; exact h
-  | cons s rest ih =>
-    intro acc h hall
-    simp only [List.foldl_cons]
-    apply ih
-    · exact unionTy_noUnk h (hall s (by simp))
-    · intro s' hs'; exact hall s' (by simp [hs'])
-
 theorem res_has {ρ : Env} {p : Pt} (h : SoundPt W ρ p) (x : Nat) (hx : W x = false) (m : Mode) : (p.res x m).has (ρ.get x) = true := by
   cases p with
   | node s => exact h x hx m
@@ -82,25 +61,9 @@ theorem res_has {ρ : Env} {p : Pt} (h : SoundPt W ρ p) (x : Nat) (hx : W x = f
       simp only [Pt.res, Res.has]
       exact foldl_union_has (.inr ⟨s, hs, hsound x hx m.forMerge⟩)
 
-theorem res_noUnk {p : Pt} (h : WfPt p) (x : Nat) : NoUnkRes (p.res x .ignore) := by
-  cases p with
-  | node s => exact h x
-  | label ins =>
-    match ins, h with
-    | [], _ => simp [Pt.res, NoUnkRes, Res.intoType]
-    | [s0], h => exact h s0 (by simp) x
-    | s0 :: s1 :: rest, h =>
-      simp only [Pt.res, NoUnkRes, Res.intoType, Mode.forMerge]
-      exact foldl_union_noUnk (by simp) (fun s hs => h s hs x)
-
 theorem sound_ins {ρ : Env} {p : Pt} (h : SoundPt W ρ p) : ∃ s ∈ p.ins, SoundSt W ρ s := by
   cases p with
   | node s => exact ⟨s, by simp [Pt.ins], h⟩
-  | label ins => exact h
-
-theorem wf_ins {p : Pt} (h : WfPt p) : ∀ s ∈ p.ins, WfSt s := by
-  cases p with
-  | node s => intro s' hs'; simp only [Pt.ins, List.mem_cons, List.not_mem_nil, or_false] at hs'; subst hs'; exact h
   | label ins => exact h
 
 theorem finishLabel_sound {ρ : Env} {ants : List Pt} {d : Pt} (h : ∃ p ∈ ants, SoundPt W ρ p) :
@@ -113,16 +76,6 @@ theorem finishLabel_sound {ρ : Env} {ants : List Pt} {d : Pt} (h : ∃ p ∈ an
   | p0 :: p1 :: rest, hp =>
     obtain ⟨s, hsin, hss⟩ := sound_ins hs
     exact ⟨s, List.mem_flatMap.mpr ⟨p, hp, hsin⟩, hss⟩
-
-theorem finishLabel_wf {ants : List Pt} {d : Pt} (h : ∀ p ∈ ants, WfPt p) (hd : WfPt d) :
-    WfPt (finishLabel ants d) := by
-  match ants, h with
-  | [], _ => exact hd
-  | [p0], h => exact h p0 (by simp)
-  | p0 :: p1 :: rest, h =>
-    intro s hs
-    obtain ⟨p, hp, hsin⟩ := List.mem_flatMap.mp hs
-    exact wf_ins (h p hp) s hsin
 
 /-! ### nodes -/
 
@@ -148,14 +101,6 @@ theorem soundSt_mk {ρ : Env} {nv : Nat} {f : Nat → Res3} (hlen : ρ.length = 
     rw [env_get_ge (by omega)]
     simp [Res.has, Ty.has, Atom.has]
 
-theorem wfSt_mk {nv : Nat} {f : Nat → Res3} (h : ∀ x, x < nv → NoUnkRes (f x).ic) :
-    WfSt ((List.range nv).map f) := by
-  intro x
-  rw [get_mk]
-  split
-  · rename_i hx; exact h x hx
-  · simp [NoUnkRes, Res.intoType]
-
 theorem res3_get_mk (a b c : Res) (m : Mode) :
     (Res3.mk a b c).get m = match m with | .normal => a | .merge => b | .ignore => c := by
   cases m <;> rfl
@@ -165,11 +110,6 @@ theorem passNode_sound {ρ : Env} {nv : Nat} {ant : Pt} (hlen : ρ.length = nv) 
   apply soundSt_mk hlen
   intro x hx _ m
   cases m <;> exact res_has h x hx _
-
-theorem passNode_wf {nv : Nat} {ant : Pt} (h : WfPt ant) : WfSt (passNode nv ant) := by
-  apply wfSt_mk
-  intro x _
-  exact res_noUnk h x
 
 theorem action_sound {ρ : Env} {l : Leaf} {flow : Bool} {x : Nat} {nr : Narrow} {t : Ty}
     (hst : StoredOK S ρ) (hin : l.storedIn S = true)
@@ -293,12 +233,6 @@ theorem condNode_sound {ρ : Env} {nv : Nat} {l : Leaf} {flow : Bool} {ant : Pt}
     · exact narrowRes_has hap (res_has h x hx _)
     · exact res_has h x hx _
 
-theorem condNode_wf {nv : Nat} {l : Leaf} {flow : Bool} {ant : Pt} (h : WfPt ant) :
-    WfSt (condNode nv l flow ant) := by
-  apply wfSt_mk
-  intro x _
-  cases ha : l.action flow x <;> exact res_noUnk h x
-
 theorem env_get_set {ρ : Env} {y x : Nat} {v : Val} :
     Env.get (ρ.set y v) x = if x = y ∧ y < ρ.length then v else ρ.get x := by
   simp only [Env.get, List.getD, List.getElem?_set]
@@ -309,45 +243,46 @@ theorem env_get_set {ρ : Env} {y x : Nat} {v : Val} :
     simp [hxy, this]
 
 theorem assignRes_has {d : Atom} {l : Lit} {ant : Pt} {x : Nat} {m : Mode} {ρ : Env}
-    (hw : WfPt ant) (h : SoundPt W ρ ant) (hx : W x = false) : (assignRes d l.ty ant x m).has l.val = true := by
+    (h : SoundPt W ρ ant) (hx : W x = false) : (assignRes d l.ty ant x m).has l.val = true := by
   unfold assignRes
   have h1 := res_has h x hx m.forAssign
   have h2 := res_has h x hx .ignore
-  have h3 := res_noUnk hw x
   cases he : ant.res x m.forAssign with
   | unreach => rw [he] at h1; simp [Res.has] at h1
   | ty a =>
     simp only []
     by_cases hc : canReuse a l.ty = true
     · simp only [hc, ↓reduceIte, Res.has]
-      exact assignResult_sound (.inl hc)
+      exact assignResult_sound
     · simp only [hc, Bool.false_eq_true, ↓reduceIte]
       cases he2 : ant.res x .ignore with
       | unreach => rw [he2] at h2; simp [Res.has] at h2
       | ty a2 =>
-        rw [he2] at h3
         simp only [Res.has]
-        exact assignResult_sound (.inr h3)
+        exact assignResult_sound
 
-theorem assignRes_noUnk {d : Atom} {l : Lit} {ant : Pt} {x : Nat} {m : Mode} :
-    NoUnkRes (assignRes d l.ty ant x m) := by
-  unfold assignRes
-  cases ant.res x m.forAssign with
-  | unreach => simp [NoUnkRes, Res.intoType]
-  | ty a =>
-    simp only []
-    by_cases hc : canReuse a l.ty = true
-    · simp only [hc, ↓reduceIte, NoUnkRes, Res.intoType]
-      exact assignResult_noUnk
-    · simp only [hc, Bool.false_eq_true, ↓reduceIte]
-      cases ant.res x .ignore with
-      | unreach => simp [NoUnkRes, Res.intoType]
-      | ty a2 =>
-        simp only [NoUnkRes, Res.intoType]
-        exact assignResult_noUnk
+theorem assignVarRes_has {d : Atom} {t : Ty} {ant : Pt} {x : Nat} {m : Mode} {ρ : Env} {v : Val}
+    (h : SoundPt W ρ ant) (hx : W x = false) (hv : t.has v = true) :
+    (assignVarRes d t ant x m).has v = true := by
+  unfold assignVarRes
+  split
+  · simpa [Res.has] using hv
+  · simp only []
+    generalize hm' : (if m == Mode.merge then Mode.merge else if preserves t then Mode.normal else Mode.ignore) = m'
+    have h1 := res_has h x hx m'
+    have h2 := res_has h x hx .ignore
+    cases he : ant.res x m' with
+    | unreach => rw [he] at h1; simp [Res.has] at h1
+    | ty a =>
+      simp only []
+      split
+      · cases he2 : ant.res x .ignore with
+        | unreach => rw [he2] at h2; simp [Res.has] at h2
+        | ty a2 => simp only [Res.has]; exact assignResultTy_sound hv
+      · simp only [Res.has]; exact assignResultTy_sound hv
 
 theorem assignNode_sound {ρ : Env} {nv : Nat} {d : Nat → Atom} {y : Nat} {l : Lit} {ant : Pt}
-    (hlen : ρ.length = nv) (hw : WfPt ant) (h : SoundPt W ρ ant) :
+    (hlen : ρ.length = nv) (h : SoundPt W ρ ant) :
     SoundSt W (ρ.set y l.val) (assignNode nv d y l.ty ant) := by
   apply soundSt_mk (by simpa using hlen)
   intro x hwx hx m
@@ -355,7 +290,7 @@ theorem assignNode_sound {ρ : Env} {nv : Nat} {d : Nat → Atom} {y : Nat} {l :
   by_cases hxy : x = y
   · subst hxy
     simp only [beq_self_eq_true, ↓reduceIte, true_and, hlen, hx]
-    cases m <;> simp only [Res3.get] <;> exact assignRes_has hw h hwx
+    cases m <;> simp only [Res3.get] <;> exact assignRes_has h hwx
   · have : (x == y) = false := by simpa using hxy
     simp only [this, Bool.false_eq_true, ↓reduceIte, hxy, false_and]
     cases m <;> simp only [Res3.get] <;> exact res_has h x hwx _
@@ -371,17 +306,20 @@ theorem storedOK_set {ρ : Env} {y : Nat} {v : Val} (hst : StoredOK S ρ) (hy : 
   simp only [this, false_and, ↓reduceIte]
   exact hst p hp
 
-theorem assignNode_wf {nv : Nat} {d : Nat → Atom} {y : Nat} {l : Lit} {ant : Pt} (hw : WfPt ant) :
-    WfSt (assignNode nv d y l.ty ant) := by
-  apply wfSt_mk
-  intro x _
+theorem assignVarNode_sound {ρ : Env} {nv : Nat} {d : Nat → Atom} {y z : Nat} {ant : Pt}
+    (hlen : ρ.length = nv) (hz : W y = false → W z = false) (h : SoundPt W ρ ant) :
+    SoundSt W (ρ.set y (ρ.get z)) (assignVarNode nv d y z ant) := by
+  apply soundSt_mk (by simpa using hlen)
+  intro x hwx hx m
+  rw [env_get_set]
   by_cases hxy : x = y
   · subst hxy
-    simp only [beq_self_eq_true, ↓reduceIte]
-    exact assignRes_noUnk
+    simp only [beq_self_eq_true, ↓reduceIte, true_and, hlen, hx]
+    have hv := Res.has_intoType (res_has h z (hz hwx) .normal)
+    cases m <;> simp only [Res3.get] <;> exact assignVarRes_has h hwx hv
   · have : (x == y) = false := by simpa using hxy
-    simp only [this, Bool.false_eq_true, ↓reduceIte]
-    exact res_noUnk hw x
+    simp only [this, Bool.false_eq_true, ↓reduceIte, hxy, false_and]
+    cases m <;> simp only [Res3.get] <;> exact res_has h x hwx _
 
 /-! ### conditions -/
 
@@ -405,37 +343,6 @@ theorem leaf_eval {ρ : Env} : ∀ {c : Cond} {l : Leaf} {inv : Bool}, c.leaf? =
       cases l'.eval ρ <;> cases inv' <;> rfl
   | .and _ _, _, _, h => by simp [Cond.leaf?] at h
   | .or _ _, _, _, h => by simp [Cond.leaf?] at h
-
-theorem edges_wf (nv : Nat) : ∀ (c : Cond) (cur : Pt), WfPt cur →
-    (∀ p ∈ (c.edges nv cur).1, WfPt p) ∧ (∀ p ∈ (c.edges nv cur).2, WfPt p)
-  | .leaf l, cur, h => by
-    simp only [Cond.edges, List.mem_cons, List.not_mem_nil, or_false, forall_eq]
-    exact ⟨condNode_wf h, condNode_wf h⟩
-  | .not c, cur, h => by
-    simp only [Cond.edges]
-    split
-    · simp only [List.mem_cons, List.not_mem_nil, or_false, forall_eq]
-      exact ⟨condNode_wf h, condNode_wf h⟩
-    · have ih := edges_wf nv c cur h
-      exact ⟨ih.2, ih.1⟩
-  | .and a b, cur, h => by
-    simp only [Cond.edges]
-    have iha := edges_wf nv a cur h
-    have ihb := edges_wf nv b (finishLabel (a.edges nv cur).1 cur) (finishLabel_wf iha.1 h)
-    refine ⟨ihb.1, ?_⟩
-    intro p hp
-    rcases List.mem_append.mp hp with hp | hp
-    · exact iha.2 p hp
-    · exact ihb.2 p hp
-  | .or a b, cur, h => by
-    simp only [Cond.edges]
-    have iha := edges_wf nv a cur h
-    have ihb := edges_wf nv b (finishLabel (a.edges nv cur).2 cur) (finishLabel_wf iha.2 h)
-    refine ⟨?_, ihb.2⟩
-    intro p hp
-    rcases List.mem_append.mp hp with hp | hp
-    · exact iha.1 p hp
-    · exact ihb.1 p hp
 
 theorem leaf_edge_sound {ρ : Env} {nv : Nat} {l : Leaf} {flow : Bool} {cur : Pt} (hl : ρ.length = nv)
     (hst : StoredOK S ρ) (hin : l.storedIn S = true)
@@ -541,6 +448,7 @@ mutual
 listed in `S` is assigned -/
 def Stmt.ok (S : List (Nat × TName)) : Stmt → Bool
   | .assign x _ => !(S.any fun p => p.1 == x)
+  | .assignVar x _ => !(S.any fun p => p.1 == x)
   | .probe _ _ => true
   | .ite c thn rest => c.storedIn S && thn.ok S && rest.ok S
 def Else.ok (S : List (Nat × TName)) : Else → Bool
@@ -553,116 +461,76 @@ def Block.ok (S : List (Nat × TName)) : Block → Bool
 end
 
 mutual
-theorem Stmt.aexec_wf (nv : Nat) (d : Nat → Atom) : ∀ (s : Stmt) (cur : Pt), WfPt cur → WfPt (s.aexec nv d cur).1
-  | .assign x l, cur, h => by simp only [Stmt.aexec]; exact assignNode_wf h
-  | .probe id x, cur, h => by simp only [Stmt.aexec]; exact passNode_wf h
-  | .ite c thn rest, cur, h => by
-    simp only [Stmt.aexec]
-    have he := edges_wf nv c cur h
-    have ht := Block.aexec_wf nv d thn _ (finishLabel_wf he.1 h)
-    have hr := Else.aexec_wf nv d rest cur _ h he.2
-    apply finishLabel_wf _ h
-    intro p hp
-    simp only [List.mem_cons] at hp
-    rcases hp with rfl | hp
-    · exact ht
-    · exact hr p hp
-theorem Else.aexec_wf (nv : Nat) (d : Nat → Atom) : ∀ (e : Else) (cur : Pt) (ins : List Pt), WfPt cur →
-    (∀ p ∈ ins, WfPt p) → ∀ p ∈ (e.aexec nv d cur ins).1, WfPt p
-  | .none, cur, ins, h, hi => by
-    simp only [Else.aexec, List.mem_cons, List.not_mem_nil, or_false, forall_eq]
-    exact finishLabel_wf hi h
-  | .els b, cur, ins, h, hi => by
-    simp only [Else.aexec, List.mem_cons, List.not_mem_nil, or_false, forall_eq]
-    exact Block.aexec_wf nv d b _ (finishLabel_wf hi h)
-  | .elif c thn rest, cur, ins, h, hi => by
-    simp only [Else.aexec]
-    have hpre := finishLabel_wf hi h
-    have he := edges_wf nv c _ hpre
-    have ht := Block.aexec_wf nv d thn _ (finishLabel_wf he.1 h)
-    have hr := Else.aexec_wf nv d rest cur _ h he.2
-    intro p hp
-    simp only [List.mem_cons] at hp
-    rcases hp with rfl | hp
-    · exact ht
-    · exact hr p hp
-theorem Block.aexec_wf (nv : Nat) (d : Nat → Atom) : ∀ (b : Block) (cur : Pt), WfPt cur → WfPt (b.aexec nv d cur).1
-  | .nil, cur, h => by simp only [Block.aexec]; exact h
-  | .cons s rest, cur, h => by
-    simp only [Block.aexec]
-    exact Block.aexec_wf nv d rest _ (Stmt.aexec_wf nv d s cur h)
-end
-
-mutual
-theorem Stmt.aexec_sound (nv : Nat) (d : Nat → Atom) : ∀ (s : Stmt) (cur : Pt) (ρ : Env), ρ.length = nv →
-    StoredOK S ρ → s.ok S = true → WfPt cur → SoundPt W ρ cur →
+/-- `hcl`: `W` is closed under the data flow of `x = y` (trivially so for `W = ∅`) -/
+theorem Stmt.aexec_sound (nv : Nat) (d : Nat → Atom) (hcl : ∀ a b : Nat, W a = false → W b = false) :
+    ∀ (s : Stmt) (cur : Pt) (ρ : Env), ρ.length = nv →
+    StoredOK S ρ → s.ok S = true → SoundPt W ρ cur →
     SoundPt W (s.exec ρ).1 (s.aexec nv d cur).1 ∧ (s.exec ρ).1.length = nv ∧ StoredOK S (s.exec ρ).1 ∧
       ObsOK W (s.exec ρ).2 (s.aexec nv d cur).2
-  | .assign x l, cur, ρ, hl, hst, hok, hw, h => by
+  | .assign x l, cur, ρ, hl, hst, hok, h => by
     simp only [Stmt.aexec, Stmt.exec]
     simp only [Stmt.ok, Bool.not_eq_eq_eq_not, Bool.not_true] at hok
-    exact ⟨assignNode_sound hl hw h, by simpa using hl, storedOK_set hst hok, ObsOK.nil⟩
-  | .probe id x, cur, ρ, hl, hst, hok, hw, h => by
+    exact ⟨assignNode_sound hl h, by simpa using hl, storedOK_set hst hok, ObsOK.nil⟩
+  | .assignVar x y, cur, ρ, hl, hst, hok, h => by
+    simp only [Stmt.aexec, Stmt.exec]
+    simp only [Stmt.ok, Bool.not_eq_eq_eq_not, Bool.not_true] at hok
+    exact ⟨assignVarNode_sound hl (hcl x y) h, by simpa using hl, storedOK_set hst hok, ObsOK.nil⟩
+  | .probe id x, cur, ρ, hl, hst, hok, h => by
     simp only [Stmt.aexec, Stmt.exec]
     exact ⟨passNode_sound hl h, hl, hst, probe_obs h⟩
-  | .ite c thn rest, cur, ρ, hl, hst, hok, hw, h => by
+  | .ite c thn rest, cur, ρ, hl, hst, hok, h => by
     simp only [Stmt.ok, Bool.and_eq_true] at hok
     simp only [Stmt.aexec, Stmt.exec]
-    have hew := edges_wf nv c cur hw
     have hes := edges_sound (W := W) nv c cur ρ hl hst hok.1.1 h
     cases hc : c.eval ρ
     · simp only [Bool.false_eq_true, ↓reduceIte]
       obtain ⟨⟨p, hp, hs⟩, hlen, hst', hobs⟩ :=
-        Else.aexec_sound nv d rest cur _ ρ hl hst hok.2 hw hew.2 (hes.2 hc)
+        Else.aexec_sound nv d hcl rest cur _ ρ hl hst hok.2 (hes.2 hc)
       exact ⟨finishLabel_sound ⟨p, by simp [hp], hs⟩, hlen, hst', hobs.right⟩
     · simp only [↓reduceIte]
       obtain ⟨hs, hlen, hst', hobs⟩ :=
-        Block.aexec_sound nv d thn _ ρ hl hst hok.1.2 (finishLabel_wf hew.1 hw)
-          (finishLabel_sound (d := cur) (hes.1 hc))
+        Block.aexec_sound nv d hcl thn _ ρ hl hst hok.1.2 (finishLabel_sound (d := cur) (hes.1 hc))
       exact ⟨finishLabel_sound ⟨_, by simp, hs⟩, hlen, hst', hobs.left⟩
-theorem Else.aexec_sound (nv : Nat) (d : Nat → Atom) : ∀ (e : Else) (cur : Pt) (ins : List Pt) (ρ : Env),
-    ρ.length = nv → StoredOK S ρ → e.ok S = true → WfPt cur → (∀ p ∈ ins, WfPt p) →
-    (∃ p ∈ ins, SoundPt W ρ p) →
+theorem Else.aexec_sound (nv : Nat) (d : Nat → Atom) (hcl : ∀ a b : Nat, W a = false → W b = false) :
+    ∀ (e : Else) (cur : Pt) (ins : List Pt) (ρ : Env),
+    ρ.length = nv → StoredOK S ρ → e.ok S = true → (∃ p ∈ ins, SoundPt W ρ p) →
     (∃ p ∈ (e.aexec nv d cur ins).1, SoundPt W (e.exec ρ).1 p) ∧ (e.exec ρ).1.length = nv ∧
       StoredOK S (e.exec ρ).1 ∧ ObsOK W (e.exec ρ).2 (e.aexec nv d cur ins).2
-  | .none, cur, ins, ρ, hl, hst, hok, hw, hwi, h => by
+  | .none, cur, ins, ρ, hl, hst, hok, h => by
     simp only [Else.aexec, Else.exec]
     exact ⟨⟨finishLabel ins cur, by simp, finishLabel_sound h⟩, hl, hst, ObsOK.nil⟩
-  | .els b, cur, ins, ρ, hl, hst, hok, hw, hwi, h => by
+  | .els b, cur, ins, ρ, hl, hst, hok, h => by
     simp only [Else.aexec, Else.exec]
-    obtain ⟨hs, hlen, hst', hobs⟩ := Block.aexec_sound nv d b _ ρ hl hst (by simpa [Else.ok] using hok)
-      (finishLabel_wf hwi hw) (finishLabel_sound (d := cur) h)
+    obtain ⟨hs, hlen, hst', hobs⟩ := Block.aexec_sound nv d hcl b _ ρ hl hst (by simpa [Else.ok] using hok)
+      (finishLabel_sound (d := cur) h)
     exact ⟨⟨_, by simp, hs⟩, hlen, hst', hobs⟩
-  | .elif c thn rest, cur, ins, ρ, hl, hst, hok, hw, hwi, h => by
+  | .elif c thn rest, cur, ins, ρ, hl, hst, hok, h => by
     simp only [Else.ok, Bool.and_eq_true] at hok
     simp only [Else.aexec, Else.exec]
-    have hpw := finishLabel_wf hwi hw
     have hps := finishLabel_sound (d := cur) h
-    have hew := edges_wf nv c _ hpw
     have hes := edges_sound (W := W) nv c _ ρ hl hst hok.1.1 hps
     cases hc : c.eval ρ
     · simp only [Bool.false_eq_true, ↓reduceIte]
       obtain ⟨⟨p, hp, hs⟩, hlen, hst', hobs⟩ :=
-        Else.aexec_sound nv d rest cur _ ρ hl hst hok.2 hw hew.2 (hes.2 hc)
+        Else.aexec_sound nv d hcl rest cur _ ρ hl hst hok.2 (hes.2 hc)
       exact ⟨⟨p, by simp [hp], hs⟩, hlen, hst', hobs.right⟩
     · simp only [↓reduceIte]
       obtain ⟨hs, hlen, hst', hobs⟩ :=
-        Block.aexec_sound nv d thn _ ρ hl hst hok.1.2 (finishLabel_wf hew.1 hw)
-          (finishLabel_sound (d := cur) (hes.1 hc))
+        Block.aexec_sound nv d hcl thn _ ρ hl hst hok.1.2 (finishLabel_sound (d := cur) (hes.1 hc))
       exact ⟨⟨_, by simp, hs⟩, hlen, hst', hobs.left⟩
-theorem Block.aexec_sound (nv : Nat) (d : Nat → Atom) : ∀ (b : Block) (cur : Pt) (ρ : Env), ρ.length = nv →
-    StoredOK S ρ → b.ok S = true → WfPt cur → SoundPt W ρ cur →
+theorem Block.aexec_sound (nv : Nat) (d : Nat → Atom) (hcl : ∀ a b : Nat, W a = false → W b = false) :
+    ∀ (b : Block) (cur : Pt) (ρ : Env), ρ.length = nv →
+    StoredOK S ρ → b.ok S = true → SoundPt W ρ cur →
     SoundPt W (b.exec ρ).1 (b.aexec nv d cur).1 ∧ (b.exec ρ).1.length = nv ∧ StoredOK S (b.exec ρ).1 ∧
       ObsOK W (b.exec ρ).2 (b.aexec nv d cur).2
-  | .nil, cur, ρ, hl, hst, hok, hw, h => by
+  | .nil, cur, ρ, hl, hst, hok, h => by
     simp only [Block.aexec, Block.exec]
     exact ⟨h, hl, hst, ObsOK.nil⟩
-  | .cons s rest, cur, ρ, hl, hst, hok, hw, h => by
+  | .cons s rest, cur, ρ, hl, hst, hok, h => by
     simp only [Block.ok, Bool.and_eq_true] at hok
     simp only [Block.aexec, Block.exec]
-    obtain ⟨hs1, hl1, hst1, ho1⟩ := Stmt.aexec_sound nv d s cur ρ hl hst hok.1 hw h
-    obtain ⟨hs2, hl2, hst2, ho2⟩ :=
-      Block.aexec_sound nv d rest _ _ hl1 hst1 hok.2 (Stmt.aexec_wf nv d s cur hw) hs1
+    obtain ⟨hs1, hl1, hst1, ho1⟩ := Stmt.aexec_sound nv d hcl s cur ρ hl hst hok.1 h
+    obtain ⟨hs2, hl2, hst2, ho2⟩ := Block.aexec_sound nv d hcl rest _ _ hl1 hst1 hok.2 hs1
     exact ⟨hs2, hl2, hst2, ho1.append ho2⟩
 end
 
@@ -697,12 +565,5 @@ theorem initPt_sound (p : Prog) : SoundPt W p.initEnv p.initPt := by
   apply soundSt_mk (by simp [Prog.initEnv])
   intro x _ _ m
   cases m <;> simpa [Res3.get, Res.has, has_single] using declTy_has p x
-
-theorem initPt_wf (p : Prog) : WfPt p.initPt := by
-  unfold Prog.initPt
-  apply wfSt_mk
-  intro x _
-  simp only [NoUnkRes, Res.intoType, List.mem_cons, List.not_mem_nil, or_false]
-  exact fun h => declTy_ne_unknown p x h.symm
 
 end Flow
